@@ -64,20 +64,37 @@ func build(kind string, g *gen.Gen) (*twin, []string) {
 	return &twin{l, st}, ids
 }
 
+// protectHow: 0 = SetProp, 1 = the property fact added without an id, 2 = the property fact
+// added under an id the caller chose (facts/add with an id parameter).  All three are the
+// documented ways to set a location property.
+var protectHow int
+
+func setProp(t *twin, name, val string) {
+	ctx := callerCtx("rightkey") // the second key of "both" is added to a location that already has the first
+	switch protectHow {
+	case 1:
+		t.loc.AddFact(ctx, "", core.Map{"!" + name: val})
+	case 2:
+		t.loc.AddFact(ctx, "my-"+name, core.Map{"!" + name: val})
+	default:
+		t.loc.SetProp(ctx, "", name, val)
+	}
+}
+
 func protect(t *twin, p string) {
 	ctx := drv.Ctx()
 	switch p {
 	case "writeKey":
-		t.loc.SetProp(ctx, "", "writeKey", "WK")
+		setProp(t, "writeKey", "WK")
 	case "readKey":
-		t.loc.SetProp(ctx, "", "readKey", "RK")
+		setProp(t, "readKey", "RK")
 	case "both":
-		t.loc.SetProp(ctx, "", "writeKey", "WK")
-		t.loc.SetProp(ctx, "", "readKey", "RK")
+		setProp(t, "writeKey", "WK")
+		setProp(t, "readKey", "RK")
 	case "readOnly":
 		t.loc.SetReadOnly(ctx, true)
 	case "disabled":
-		t.loc.SetProp(ctx, "", "enabled", "false")
+		setProp(t, "enabled", "false")
 	}
 }
 
@@ -406,6 +423,7 @@ func main() {
 							continue // admin read-out, not gated by design (DESIGN §5 C10/C19)
 						}
 						seed := e.BatchSeed()*2038074743 + int64(round*1000+oi)
+						protectHow = round % 3
 						prot, ids := build(kind, gen.New(seed))
 						plain, _ := build(kind, gen.New(seed))
 						protect(prot, p)
